@@ -152,8 +152,9 @@ fn letter_ins(l: usize, idx: usize) -> Instruction {
 fn code_a() -> Vec<Instruction> {
     vec![
         op::log(RegId::ONE, RegId::ZERO, RegId::ZERO, RegId::ZERO),
-        // storage effect: mints 1 coin of A's sub-asset memory[0..32]
-        op::mint(RegId::ONE, RegId::ZERO),
+        // storage effect: mints 1 coin of A's sub-asset named by the first 32 bytes of its call frame
+        // (= A's id); the balance entry exists beforehand, so this costs 1 gas like everything else
+        op::mint(RegId::ONE, RegId::FP),
         op::ret(RegId::ONE),
     ]
 }
@@ -171,12 +172,15 @@ fn env() -> Env {
     // out-of-gas loops short; the debugger does not look at the schedule
     let mut params = fuel_tx::ConsensusParameters::standard();
     params.set_gas_costs(fuel_tx::GasCosts::unit());
-    let cfg = WorldCfg {
+    use fuel_tx::ContractIdExt;
+    let mut cfg = WorldCfg {
         code_a: code_a(),
         code_b: code_b(),
         params,
         ..WorldCfg::default()
     };
+    let sub_id = fuel_types::SubAssetId::new(*A);
+    cfg.balances.push((A, A.asset_id(&sub_id), 7));
     Env { world: World::new(cfg) }
 }
 
@@ -528,6 +532,47 @@ fn judge_events(trace: &[TStep], events: &[Event], armed: &[Loc], single: bool) 
     Ok(info)
 }
 
+/// `fmt::Write` sink that compares the rendering with an expected string on the fly.
+struct SameAs<'a> {
+    rest: &'a [u8],
+    same: bool,
+}
+
+impl std::fmt::Write for SameAs<'_> {
+    fn write_str(&mut self, s: &str) -> std::fmt::Result {
+        let b = s.as_bytes();
+        if self.same && self.rest.len() >= b.len() && &self.rest[..b.len()] == b {
+            self.rest = &self.rest[b.len()..];
+        } else {
+            self.same = false;
+        }
+        Ok(())
+    }
+}
+
+/// Oracle (1). Fast path without copies; the slow path only formulates the difference.
+fn judge_final_vm(reference: &Final, vm: &Vm, state: Result<ProgramState, String>) -> Result<(), (&'static str, String)> {
+    use std::fmt::Write;
+    let mut sink = SameAs {
+        rest: reference.storage.as_bytes(),
+        same: true,
+    };
+    let _ = write!(sink, "{:?}", vm.as_ref());
+    if reference.state == state
+        && reference.receipts.as_slice() == vm.receipts()
+        && &reference.tx == vm.transaction()
+        && sink.same
+        && sink.rest.is_empty()
+    {
+        return Ok(())
+    }
+    let got = final_of(vm, state);
+    match judge_final(reference, &got) {
+        Err(e) => Err(e),
+        Ok(()) => unreachable!("fast and slow comparison of the final results disagree"),
+    }
+}
+
 fn judge_final(reference: &Final, got: &Final) -> Result<(), (&'static str, String)> {
     if reference.state != got.state {
         return Err(("final.state", format!("final state {:?}, without debugger {:?}", got.state, reference.state)))
@@ -609,7 +654,7 @@ fn check_case(env: &Env, p: &Prog, refs: &Refs, mode: &Mode) -> CaseReport {
             Some(a) => Err(("driver.anomaly", a)),
             None => judge_events(&refs.trace[txi], &events, &armed, single).and_then(|info| {
                 rep.info[txi] = info;
-                judge_final(&refs.fin[txi], &final_of(&vm, state))
+                judge_final_vm(&refs.fin[txi], &vm, state)
             }),
         };
         if let Err((rule, detail)) = verdict {
@@ -793,7 +838,7 @@ fn explore(ctx: &Ctx) {
         "script_layout",
         json!("prelude(9) | ji 12 | SUB(10): log | jal $zero r0x13 | movi r0x10 2 | movi r0x11 5 (13) | body (14..) | ret $one | rvrt $one"),
     );
-    ctx.set("contract_a", json!(["log $one", "sww [0..32] := 1", "ret $one"]));
+    ctx.set("contract_a", json!(["log $one", "mint 1 coin of sub-asset [$fp..$fp+32]", "ret $one"]));
     ctx.set("contract_b", json!(["log $one $one", "ret $one"]));
 
     let env = env();
